@@ -18,6 +18,7 @@ import (
 	"seehuhn.de/go/sfnt/glyf"
 	"seehuhn.de/go/sfnt/glyph"
 	"seehuhn.de/go/sfnt/opentype/classdef"
+	"seehuhn.de/go/sfnt/opentype/coverage"
 	"seehuhn.de/go/sfnt/opentype/gtab"
 	genfont "verif/harness/gen/font"
 	"verif/harness/gen/lookups"
@@ -90,7 +91,7 @@ func mutateContainer(t *rapid.T, in []byte) []byte {
 	n := rapid.IntRange(0, 3).Draw(t, "nTableOps")
 	for i := 0; i < n && len(tags) > 0; i++ {
 		tag := rapid.SampledFrom(tags).Draw(t, "opTable")
-		switch rapid.IntRange(0, 5).Draw(t, "tableOp") {
+		switch rapid.IntRange(0, 7).Draw(t, "tableOp") {
 		case 0: // delete
 			delete(tables, tag)
 		case 1: // rename
@@ -107,10 +108,41 @@ func mutateContainer(t *rapid.T, in []byte) []byte {
 			if d, ok := tables[tag]; ok {
 				tables[tag] = mutateBytes(t, d)
 			}
-		default: // replace by another table's data
+		case 5: // replace by another table's data
 			other := rapid.SampledFrom(tags).Draw(t, "other")
 			if d, ok := tables[other]; ok {
 				tables[tag] = d
+			}
+		case 6: // outlines of a much smaller font under the other tables of this
+			// one: cmap, layout tables, names now refer to glyphs that do not exist
+			kind := genfont.KindGlyf
+			if _, ok := tables["CFF "]; ok {
+				kind = rapid.SampledFrom([]genfont.Kind{genfont.KindCFF, genfont.KindCID}).Draw(t, "donorKind")
+			}
+			c2 := genfont.Gen(genfont.Opts{Kind: kind, MinGlyphs: 1, MaxGlyphs: 3, Layout: genfont.LayoutNone}).Draw(t, "smallDonor")
+			var buf bytes.Buffer
+			if _, err := c2.Font.Write(&buf); err == nil {
+				if f2, err := refsfnt.Parse(buf.Bytes()); err == nil {
+					for _, tg := range []string{"maxp", "hmtx", "hhea", "glyf", "loca", "CFF ", "head", "post"} {
+						if d, ok := f2.Table(tg); ok {
+							if _, have := tables[tg]; have || tg == "post" {
+								tables[tg] = d
+							}
+						}
+					}
+				}
+			}
+		default: // splice in the same table of a different (usually larger) font:
+			// every table stays well formed, the tables no longer agree
+			kind := genfont.KindAny
+			c2 := genfont.Gen(genfont.Opts{Kind: kind, MinGlyphs: 2, MaxGlyphs: 60}).Draw(t, "donor")
+			var buf bytes.Buffer
+			if _, err := c2.Font.Write(&buf); err == nil {
+				if f2, err := refsfnt.Parse(buf.Bytes()); err == nil {
+					if d, ok := f2.Table(tag); ok {
+						tables[tag] = d
+					}
+				}
 			}
 		}
 	}
@@ -257,6 +289,29 @@ func seedFor(t *rapid.T, name string) []byte {
 			t.Skip("not encodable")
 		}
 		return out
+	case "gpos-degenerate":
+		// valid GPOS tables whose records have size zero (all value formats 0)
+		var st gtab.Subtable
+		cov := coverage.Set{1: true, 2: true}
+		switch rapid.IntRange(0, 2).Draw(t, "degKind") {
+		case 0:
+			st = &gtab.Gpos2_2{Cov: cov, Class1: classdef.Table{1: 1}, Class2: classdef.Table{2: 1},
+				Adjust: [][]*gtab.PairAdjust{{{}, {}}, {{}, {}}}}
+		case 1:
+			st = gtab.Gpos2_1{{Left: 1, Right: 2}: {}, {Left: 1, Right: 3}: {}, {Left: 2, Right: 2}: {}}
+		default:
+			st = &gtab.Gpos1_2{Cov: coverage.Table{1: 0, 2: 1}, Adjust: []*gtab.GposValueRecord{nil, nil}}
+		}
+		info := &gtab.Info{
+			ScriptList:  gtab.ScriptListInfo{language.MustParse("und-Latn-x-latn"): {Required: 0xFFFF, Optional: []gtab.FeatureIndex{0}}},
+			FeatureList: []*gtab.Feature{{Tag: "kern", Lookups: []gtab.LookupIndex{0}}},
+			LookupList:  gtab.LookupList{{Meta: &gtab.LookupMetaInfo{LookupType: map[bool]uint16{true: 1, false: 2}[func() bool { _, ok := st.(*gtab.Gpos1_2); return ok }()]}, Subtables: []gtab.Subtable{st}}},
+		}
+		var out []byte
+		if guard.Try(func() { out = info.Encode() }) != nil {
+			t.Skip("not encodable")
+		}
+		return out
 	case "gdef.Read":
 		env := lookups.GenEnv(rapid.Bool().Draw(t, "wide")).Draw(t, "env")
 		var out []byte
@@ -357,10 +412,12 @@ func runGroup(t *testing.T, sub string, names ...string) {
 	})
 }
 
-func TestC02Font(t *testing.T)   { runGroup(t, "font", "sfnt.Read/ReaderAt", "sfnt.Read/Reader", "header.Read") }
-func TestC02CFF(t *testing.T)    { runGroup(t, "cff", "cff.Read") }
-func TestC02Cmap(t *testing.T)   { runGroup(t, "cmap", "cmap.Decode") }
-func TestC02Glyf(t *testing.T)   { runGroup(t, "glyf", "glyf.Decode") }
+func TestC02Font(t *testing.T) {
+	runGroup(t, "font", "sfnt.Read/ReaderAt", "sfnt.Read/Reader", "header.Read")
+}
+func TestC02CFF(t *testing.T)  { runGroup(t, "cff", "cff.Read") }
+func TestC02Cmap(t *testing.T) { runGroup(t, "cmap", "cmap.Decode") }
+func TestC02Glyf(t *testing.T) { runGroup(t, "glyf", "glyf.Decode") }
 func TestC02Layout(t *testing.T) {
 	runGroup(t, "layout", "gtab.Read/GSUB", "gtab.Read/GPOS", "gdef.Read", "coverage.Read", "coverage.ReadSet", "classdef.Read")
 }
@@ -424,12 +481,14 @@ func fuzzGroup(f *testing.F, names ...string) {
 	})
 }
 
-func FuzzC02Font(f *testing.F)   { fuzzGroup(f, "sfnt.Read/ReaderAt", "sfnt.Read/Reader", "header.Read") }
-func FuzzC02CFF(f *testing.F)    { fuzzGroup(f, "cff.Read") }
-func FuzzC02Cmap(f *testing.F)   { fuzzGroup(f, "cmap.Decode") }
-func FuzzC02Glyf(f *testing.F)   { fuzzGroup(f, "glyf.Decode") }
-func FuzzC02Gtab(f *testing.F)   { fuzzGroup(f, "gtab.Read/GSUB", "gtab.Read/GPOS") }
-func FuzzC02Layout(f *testing.F) { fuzzGroup(f, "gdef.Read", "coverage.Read", "coverage.ReadSet", "classdef.Read") }
+func FuzzC02Font(f *testing.F) { fuzzGroup(f, "sfnt.Read/ReaderAt", "sfnt.Read/Reader", "header.Read") }
+func FuzzC02CFF(f *testing.F)  { fuzzGroup(f, "cff.Read") }
+func FuzzC02Cmap(f *testing.F) { fuzzGroup(f, "cmap.Decode") }
+func FuzzC02Glyf(f *testing.F) { fuzzGroup(f, "glyf.Decode") }
+func FuzzC02Gtab(f *testing.F) { fuzzGroup(f, "gtab.Read/GSUB", "gtab.Read/GPOS") }
+func FuzzC02Layout(f *testing.F) {
+	fuzzGroup(f, "gdef.Read", "coverage.Read", "coverage.ReadSet", "classdef.Read")
+}
 func FuzzC02Small(f *testing.F) {
 	fuzzGroup(f, "name.Decode", "head.Read", "hmtx.Decode", "maxp.Read", "os2.Read", "post.Read", "kern.Read")
 }
@@ -465,5 +524,110 @@ func TestC02MakeCorpus(t *testing.T) {
 		body := fmt.Sprintf("go test fuzz v1\n[]byte(%s)\nbyte(%s)\n", strconv.Quote(string(b)), strconv.QuoteRune(rune(sel)))
 		os.WriteFile(filepath.Join(d, fmt.Sprintf("gen-%02d", count[fz])), []byte(body), 0o644)
 		count[fz]++
+	})
+}
+
+// TestC02Sweep: exhaustive hostile-constant sweeps over the 16-bit fields of
+// small valid tables: every single field x {0, 1, 0x7FFF, 0x8000, 0xFFFF},
+// and every pair of up to 48 drawn fields x {0x7FFF, 0xFFFF}^2 (counts
+// multiplied by counts, counts multiplied by aliased offsets).
+func sweepTable(fatalf func(string, ...any), name string, seed []byte, pick func(nf int) []int) int {
+	tg := targetByName(name)
+	runs := 0
+	try := func(b []byte, what string) {
+		runs++
+		o := tg.run(b)
+		if err := tg.verdict(b, o); err != nil {
+			p := stats.SaveReplay(fmt.Sprintf("TestC02Replay--%s-%012x.bin", strings.NewReplacer("/", "_", ".", "_").Replace(name), stats.Hash(b)&0xffffffffffff), append([]byte(name+"\n"), b...))
+			fatalf("%s: %v\n(input saved as %s)", what, err, p)
+		}
+	}
+	b := append([]byte(nil), seed...)
+	set := func(pos, v int) (old0, old1 byte) {
+		old0, old1 = b[pos], b[pos+1]
+		b[pos], b[pos+1] = byte(v>>8), byte(v)
+		return
+	}
+	nf := len(b) / 2
+	for i := 0; i < nf; i++ {
+		for _, v := range []int{0, 1, 0x7FFF, 0x8000, 0xFFFF} {
+			o0, o1 := set(2*i, v)
+			try(b, fmt.Sprintf("field %d = %#x", i, v))
+			b[2*i], b[2*i+1] = o0, o1
+		}
+	}
+	fields := pick(nf)
+	for x := 0; x < len(fields); x++ {
+		for y := x + 1; y < len(fields); y++ {
+			for _, v := range [][2]int{{0xFFFF, 0xFFFF}, {0x7FFF, 0x7FFF}, {0xFFFF, 0}, {0, 0xFFFF}} {
+				a0, a1 := set(2*fields[x], v[0])
+				c0, c1 := set(2*fields[y], v[1])
+				try(b, fmt.Sprintf("fields %d,%d = %#x,%#x", fields[x], fields[y], v[0], v[1]))
+				b[2*fields[x]], b[2*fields[x]+1] = a0, a1
+				b[2*fields[y]], b[2*fields[y]+1] = c0, c1
+			}
+		}
+	}
+	return runs
+}
+
+// TestC02SweepDegenerate sweeps the handcrafted GPOS tables whose records
+// have size zero completely (all single fields, all pairs of fields).
+func TestC02SweepDegenerate(t *testing.T) {
+	seen := map[uint64]bool{}
+	rapid.Check(t, func(t *rapid.T) {
+		seed := seedFor(t, "gpos-degenerate")
+		h := stats.Hash(seed)
+		if seen[h] {
+			return
+		}
+		seen[h] = true
+		runs := sweepTable(t.Fatalf, "gtab.Read/GPOS", seed, func(nf int) []int {
+			all := make([]int, nf)
+			for i := range all {
+				all[i] = i
+			}
+			return all
+		})
+		stats.LabelN("sweep-degenerate", "decoder-calls", int64(runs))
+		stats.CaseIn("sweep-degenerate", h, true, func() string {
+			return fmt.Sprintf("%d-byte GPOS table with zero-size records: %d single-field and pair mutations", len(seed), runs)
+		})
+	})
+}
+
+func TestC02Sweep(t *testing.T) {
+	names := []string{"gtab.Read/GSUB", "gtab.Read/GPOS", "gpos-degenerate", "gdef.Read", "coverage.Read", "classdef.Read", "cmap.Decode", "kern.Read", "post.Read", "name.Decode", "hmtx.Decode"}
+	rapid.Check(t, func(t *rapid.T) {
+		name := rapid.SampledFrom(names).Draw(t, "target")
+		seed := seedFor(t, name)
+		if name == "gpos-degenerate" {
+			name = "gtab.Read/GPOS"
+		}
+		if len(seed) > 600 || len(seed) < 4 {
+			t.Skip("seed too large for a sweep")
+		}
+		runs := sweepTable(t.Fatalf, name, seed, func(nf int) []int {
+			var fields []int
+			if nf <= 48 {
+				for i := 0; i < nf; i++ {
+					fields = append(fields, i)
+				}
+				return fields
+			}
+			seen := map[int]bool{}
+			for len(fields) < 48 {
+				f := rapid.IntRange(0, nf-1).Draw(t, "field")
+				if !seen[f] {
+					seen[f] = true
+					fields = append(fields, f)
+				}
+			}
+			return fields
+		})
+		stats.LabelN("sweep", "decoder-calls", int64(runs))
+		stats.CaseIn("sweep", stats.Hash(name, seed), true, func() string {
+			return fmt.Sprintf("%s: %d-byte valid table, %d single-field and pair mutations", name, len(seed), runs)
+		}, name)
 	})
 }
